@@ -29,7 +29,7 @@ CHECKS = {
    category="fault_enumeration", design_ref="DESIGN.md §5 C06", engine="fault",
    technique="exhaustive single-fault enumeration on the storage seam: every bit flip, truncation, extension, substitution, read error offset and chunking of every block × 4 load functions; every failing Write call, accessor failure, opener and commit error on Store",
    text="For each stored block every listed corruption/fault is injected through the real StorageReadOpener/WriteOpener seam; a non-error return must imply the served bytes hash to the link, mismatches must win over decode errors, I/O errors must surface, and Store must never commit after a failed write or encode.",
-   note="Trusted: the harness's recomputation of the hash of served bytes. A reader returning (0,nil) is checked for safety only, not availability. Every content-changing fault is also run with another load through the same link system nested into the first, second and third read call (two operations overlapping in time, deterministically)."),
+   note="Trusted: the harness's recomputation of the hash of served bytes. A reader returning (0,nil) is checked for safety only, not availability. Every content-changing fault is also run (quick tier) with another load through the same link system nested into the first, second and third read call (two operations overlapping in time, deterministically). In the thorough tier this deviation is applied to every fourth plan (cost)."),
  "C07": dict(
    category="model_checking", design_ref="DESIGN.md §5 C07",
    technique="bounded-exhaustive enumeration of selector ASTs (≤3/4 clauses + targeted union/recursion families) × block graphs (≤4/5 nodes, every cut into blocks, dangling/shared links), each walked by the real WalkAdv/WalkMatching and compared with an independent substitution-style reference denotation",
